@@ -205,6 +205,12 @@ pub fn run(ctx: &Ctx) -> Report {
                     _ => rng.range(1, 40) as usize,
                 })
                 .collect();
+            let mut lens = lens;
+            if i % 5 == 0 {
+                let at = rng.usize(lens.len());
+                lens[at] = rng.range(600_000, 3_000_000) as usize;
+                rep.counters.inc("pipelines_with_a_megabyte_command");
+            }
             let (cmds, scripts, sent) = build(ctx.seed ^ (i << 20), &lens, rng);
             let mut case = Case::new(cmds, scripts);
             case.log_reads = false;
@@ -236,8 +242,10 @@ pub fn run(ctx: &Ctx) -> Report {
         if ctx.thorough {
             big.extend_from_slice(&[MAXP - 2, 2 * MAXP - 1, 2 * MAXP, 2 * MAXP + 5000, MAXP + 70_000, 3 * MAXP]);
         }
-        let variants = if ctx.thorough { 3 } else { 1 };
-        let cases: Vec<(usize, u64)> = big.iter().flat_map(|&l| (0..variants).map(move |v| (l, v))).collect();
+        // variant 0: cuts around every header incl. the boundary itself; 1: long data instead of a
+        // query; 2: cuts around but never ON a boundary, so a read spans the end of the big command
+        // and the start of the next one; 3: coarse reads only
+        let cases: Vec<(usize, u64)> = if ctx.thorough { big.iter().flat_map(|&l| (0..4u64).map(move |v| (l, v))).collect() } else { big.iter().enumerate().map(|(k, &l)| (l, [0u64, 2, 3, 1][k % 4])).collect() };
         let r = par_cases(ctx, "C01", "large", cases.len() as u64, |rng, i, rep| {
             let (plen, variant) = cases[i as usize];
             // payload length plen: command byte + text
@@ -280,7 +288,11 @@ pub fn run(ctx: &Ctx) -> Report {
             let mut cuts = Vec::new();
             for (off, len) in layout(&input) {
                 if len >= 60_000 || off > 1_000_000 {
-                    let picks: Vec<i64> = if variant == 2 { vec![-3, 0, 2, 4, 5] } else { vec![-1, 0, 1, 3, 4] };
+                    let picks: Vec<i64> = match variant {
+                        2 => vec![-3, 2, 5],
+                        3 => vec![],
+                        _ => vec![-1, 0, 1, 3, 4],
+                    };
                     for d in picks {
                         let c = off as i64 + d;
                         if c > 0 {
@@ -309,6 +321,7 @@ pub fn run(ctx: &Ctx) -> Report {
         rep.merge(r);
         rep.require("multi_packet_commands", 3);
     }
+    rep.merge(super::mega::run(ctx, "C01", 600, 20000));
     for k in ["end_in_header_1", "end_in_header_2", "end_in_header_3", "end_on_boundary", "end_in_payload", "reads_delivering_several_commands", "commands_compared"] {
         if ctx.strict() {
             rep.require(k, 1);
